@@ -35,7 +35,7 @@ pub fn make_crate(name: &str, bins: &[(&str, String)], with_mv_core: bool) -> st
     let mut toml = String::from("[package]\nname = \"genprog\"\nversion = \"0.0.0\"\nedition = \"2021\"\n\n[workspace]\n\n[dependencies]\n");
     toml += &format!("mina = {{ path = \"{}\" }}\nenum-map = \"2.5.0\"\nserde_json = \"1\"\n", REPO);
     if with_mv_core {
-        toml += &format!("mv-core = {{ path = \"{}\" }}\nmv-model = {{ path = \"{}\" }}\n", h.join("mv-core").display(), h.join("mv-model").display());
+        toml += &format!("mv-core = {{ path = \"{}\", default-features = false }}\nmv-model = {{ path = \"{}\" }}\n", h.join("mv-core").display(), h.join("mv-model").display());
     }
     toml += "\n[profile.dev]\nopt-level = 0\ndebug = false\nincremental = false\n";
     for (b, src) in bins {
